@@ -47,10 +47,25 @@ impl IntoVal for f64 { fn val(&self) -> Val { Val::F(*self, self.to_bits(), fals
 impl IntoVal for u64 { fn val(&self) -> Val { Val::U(*self) } }
 
 /// a constructed distribution behind a uniform interface
-pub struct Dyn(pub Box<dyn Fn(&mut ScriptRng) -> Val>);
+pub struct Dyn(
+    pub Box<dyn Fn(&mut ScriptRng) -> Val>,
+    /// `.clone()` of the underlying distribution value
+    pub Box<dyn Fn() -> Dyn>,
+    /// `{:?}` of the very object that is sampled
+    pub Box<dyn Fn() -> String>,
+    /// `sample_iter(rng).take(n)`
+    pub Box<dyn Fn(&mut ScriptRng, usize) -> Vec<Val>>,
+);
 
-fn boxed<T: IntoVal + 'static, D: Distribution<T> + 'static>(d: D) -> Dyn {
-    Dyn(Box::new(move |rng: &mut ScriptRng| d.sample(rng).val()))
+fn boxed<T: IntoVal + 'static, D: Distribution<T> + Clone + core::fmt::Debug + 'static>(d: D) -> Dyn {
+    let rc = std::rc::Rc::new(d);
+    let (a, b, c, e) = (rc.clone(), rc.clone(), rc.clone(), rc);
+    Dyn(
+        Box::new(move |rng: &mut ScriptRng| a.sample(rng).val()),
+        Box::new(move || boxed::<T, D>((*b).clone())),
+        Box::new(move || format!("{:?}", c)),
+        Box::new(move |rng: &mut ScriptRng, n: usize| (&*e).sample_iter(rng).take(n).map(|v| v.val()).collect()),
+    )
 }
 
 macro_rules! mk {
@@ -326,4 +341,50 @@ pub fn lat(toks: &[&str]) -> String {
     }
     format!("n={} fail={} meanwords={:.3} maxwords={} fails={}", evals, nfail, total as f64 / evals.max(1) as f64, maxw,
             if fails.is_empty() { "-".to_string() } else { fails.join(",") })
+}
+
+/// pure: interleaved histories over several objects and several seeded streams (property C14)
+/// `pure <seedhex> <fresh:0|1> <family:ty:params;...> <op> <op> ...`
+///   S<k>:<r> sample object k from stream r | I<k>:<r>:<n> sample_iter take n | C<k> push clone of k | B<k> push rebuild of k
+///   D<k> Debug of object k
+/// with fresh=1 every sample is drawn from an object newly constructed from the same parameters
+pub fn pure(toks: &[&str]) -> String {
+    let seed = u64::from_str_radix(toks[1], 16).expect("seed");
+    let fresh = toks[2] == "1";
+    let mut specs: Vec<(String, String, Vec<String>)> = vec![];
+    let mut objs: Vec<Dyn> = vec![];
+    for sp in toks[3].split(';') {
+        let p: Vec<&str> = sp.split(':').collect();
+        let ps: Vec<String> = if p[2] == "-" { vec![] } else { p[2].split(',').map(|x| x.to_string()).collect() };
+        let psr: Vec<&str> = ps.iter().map(|x| x.as_str()).collect();
+        match build(p[0], p[1], &psr) { Ok(d) => objs.push(d), Err(e) => return e }
+        specs.push((p[0].to_string(), p[1].to_string(), ps));
+    }
+    let mut rngs: Vec<ScriptRng> = (0..8).map(|r| { let mut g = ScriptRng::new(vec![], seed.wrapping_add(0x1000 * r as u64)); g.limit = 1_000_000; g }).collect();
+    let mut out: Vec<String> = vec![];
+    let rebuild = |specs: &Vec<(String, String, Vec<String>)>, k: usize| -> Dyn {
+        let (f, t, ps) = &specs[k];
+        let psr: Vec<&str> = ps.iter().map(|x| x.as_str()).collect();
+        build(f, t, &psr).ok().unwrap()
+    };
+    for op in &toks[4..] {
+        let kind = &op[..1];
+        let a: Vec<usize> = op[1..].split(':').map(|x| x.parse().unwrap()).collect();
+        let r = catch_unwind(AssertUnwindSafe(|| match kind {
+            "S" => {
+                let v = if fresh { (rebuild(&specs, a[0]).0)(&mut rngs[a[1]]) } else { (objs[a[0]].0)(&mut rngs[a[1]]) };
+                format!("{}:{}", v.show(), rngs[a[1]].count)
+            }
+            "I" => {
+                let vs = if fresh { (rebuild(&specs, a[0]).3)(&mut rngs[a[1]], a[2]) } else { (objs[a[0]].3)(&mut rngs[a[1]], a[2]) };
+                format!("{}:{}", vs.iter().map(|v| v.show()).collect::<Vec<_>>().join(","), rngs[a[1]].count)
+            }
+            "C" => { let c = (objs[a[0]].1)(); objs.push(c); specs.push(specs[a[0]].clone()); "ok".to_string() }
+            "B" => { let c = rebuild(&specs, a[0]); objs.push(c); specs.push(specs[a[0]].clone()); "ok".to_string() }
+            "D" => (objs[a[0]].2)().replace(' ', ""),
+            _ => "badop".to_string(),
+        }));
+        out.push(r.unwrap_or_else(|_| "panic".to_string()));
+    }
+    out.join(" ")
 }
